@@ -14,6 +14,7 @@ class Sim:
         self.nested_violations = []
         self.unraisable = []
         self.monitor = True
+        self.cyclic = False
         self.max_live = 0
         self._orig_init = None
 
@@ -86,7 +87,14 @@ def make_simyp(sim):
             if not sim.monitor:
                 yield from super().query(name, args)
                 return
-            snap = sim.snapshot()
+            try:
+                snap = sim.snapshot()
+            except (RecursionError, TM.TooDeep):
+                # a cyclic term exists (built by `=` without occurs check: unspecified behaviour); observing it
+                # cannot terminate.  The monitor must never raise into the engine: stand aside and flag the run.
+                sim.cyclic = True
+                yield from super().query(name, args)
+                return
             sim.live.append(name)
             if len(sim.live) > sim.max_live:
                 sim.max_live = len(sim.live)
@@ -100,8 +108,12 @@ def make_simyp(sim):
                     if sim.live[i] == name:
                         del sim.live[i]
                         break
-                if exhausted and not sim.restored(snap):
-                    sim.nested_violations.append((name, len(args), sim.first_difference(snap)))
+                if exhausted:
+                    try:
+                        if not sim.restored(snap):
+                            sim.nested_violations.append((name, len(args), sim.first_difference(snap)))
+                    except (RecursionError, TM.TooDeep):
+                        sim.cyclic = True
     return SimYP
 
 
